@@ -66,3 +66,41 @@ Theorem C31_backoff_law : forall c mgr off ops e,
   cfg_ok c -> Forall op_ok ops -> In e (log (run fixed c mgr (init off) ops)) -> obeys_law c e.
 Proof. exact backoff_law. Qed.
 Print Assumptions C31_backoff_law.
+
+(** The jittered delay lies within the configured jitter J = jnum/jden of the
+    un-jittered delay d:  d(1-J) - 1 < add_jitter d <= d(1+J)
+    (stated multiplied by jden; the -1 is the truncation of the float conversion). *)
+Theorem C31_jitter_band : forall c t d,
+  0 <= d -> 0 < c_jit_den c -> 0 <= c_jit_num c <= c_jit_den c ->
+  let r := add_jitter c t d in
+  d * (c_jit_den c - c_jit_num c) - c_jit_den c < r * c_jit_den c <= d * (c_jit_den c + c_jit_num c).
+Proof. exact add_jitter_band. Qed.
+Print Assumptions C31_jitter_band.
+
+(** With an integral multiplier (the default is 2.0) the un-jittered delay of
+    retry k is exactly min(initial * multiplier^k, max). *)
+Theorem C31_formula_integral_multiplier : forall c k,
+  c_mul_den c = 1 -> 1 <= c_mul_num c -> 0 <= c_initial c <= c_max c ->
+  nd_iter c k = Z.min (c_initial c * c_mul_num c ^ Z.of_nat k) (c_max c).
+Proof. exact nd_iter_integral. Qed.
+Print Assumptions C31_formula_integral_multiplier.
+
+(** General dyadic multiplier num/den: the un-jittered delay never exceeds
+    max(initial, max) nor initial * (num/den)^k.  PARTIAL: the matching lower
+    bound (the iterated truncation loses less than one nanosecond per step,
+    i.e. nd_iter k > min(initial*(num/den)^k, max) - (num/den)^k * den/(num-den))
+    is not proved. *)
+Theorem C31_formula_upper_bound_partial : forall c k, cfg_ok c ->
+  nd_iter c k <= Z.max (c_initial c) (c_max c) /\
+  nd_iter c k * c_mul_den c ^ Z.of_nat k <= c_initial c * c_mul_num c ^ Z.of_nat k.
+Proof. exact nd_iter_upper. Qed.
+Print Assumptions C31_formula_upper_bound_partial.
+
+(** non-vacuity of the law: three consecutive retries at 1 s, 3 s, 7 s *)
+Theorem C31_backoff_law_example :
+  map (fun e => (l_time e, l_k e, l_armed e))
+      (rev (log (run fixed std true (init 0)
+                   [Sched 0%N; Adv sec; Reply 0 false; Adv (2 * sec); Reply 0 false; Adv (4 * sec)])))
+  = [(1 * sec, 0, 0); (3 * sec, 1, 1 * sec); (7 * sec, 2, 3 * sec)].
+Proof. exact backoff_law_example. Qed.
+Print Assumptions C31_backoff_law_example.
